@@ -62,4 +62,5 @@ func emitNumericModels(repo, out string) {
 	emitNumeric(repo, filepath.Join(out, "NumericModels.lean"), "Gv.Gen.Models",
 		"Straight-line float code of `models/dna` (property C18), generic in the numeric type.",
 		numericModels, extra)
+	emitProteinTables(repo, out)
 }
